@@ -3,7 +3,7 @@
 # Runs the checks against a scratch worktree (/var/tmp/verif-scratch-wt) with the seed applied, via VERIF_REPO;
 # /repo and evidence/ are not touched (evidence goes to /var/tmp/verif-scratch-evidence).
 S="$1"; PROPS="$2"; TIER="${3:-quick}"
-W=/var/tmp/verif-scratch-wt
+W=${VERIF_SCRATCH_WT:-/var/tmp/verif-scratch-wt}
 cd /verif || exit 2
 if [ ! -d "$W" ] || [ "$(git -C $W rev-parse HEAD 2>/dev/null)" != "$(git -C /repo rev-parse HEAD)" ]; then
   git -C /repo worktree remove --force "$W" 2>/dev/null; rm -rf "$W"
